@@ -39,3 +39,24 @@ Definition mmap_offset (pos : Z) (padding_length : Z) : result Z :=
 Definition mmap_end (offset : Z) (nbytes : Z) : result Z :=
   Ok ((offset + nbytes)).
 
+Definition reduce_args (a_start : Z) (a_end : Z) (m_start : Z) (m_offset : Z) (itemsize : Z) (m_f : bool) (a_f : bool) (a_c : bool) : result (Z * Z * option Z * option Z) :=
+  let offset := (a_start - m_start) in
+  let offset := (offset + m_offset) in
+  bind (if m_f then (let order := (1) in
+  Ok order) else (let order := (0) in
+  Ok order)) (fun order =>
+  bind (if (a_f || a_c) then (let strides := None in
+  let total_buffer_len := None in
+  bind (if (a_f && (negb a_c)) then (let order := (1) in
+  Ok order) else (let order := (0) in
+  Ok order)) (fun order =>
+  Ok (strides, total_buffer_len, order))) else (let strides := (1) in
+  bind (py_floordiv (a_end - a_start) itemsize) (fun total_buffer_len =>
+  Ok (Some strides, Some total_buffer_len, order)))) (fun '(strides, total_buffer_len, order) =>
+  Ok (offset, order, strides, total_buffer_len))).
+
+Definition forward_memmaps (hasobject : bool) (max_nbytes : option Z) (nbytes : Z) : result bool :=
+  Ok (((negb hasobject) && (match max_nbytes with None => false | Some max_nbytes => (nbytes >? max_nbytes) end))).
+
+(* numpy 2.4.6 used by the implementation side: hasattr(numpy.ndarray, '__array_prepare__') *)
+Definition numpy_has_array_prepare : bool := false.
